@@ -589,7 +589,7 @@ def run_param(ctx, R, pname, nparams):
     for d in sorted(flist):
         q, t = COUNTS[d]
         if pname in SWEEP_NAMES:
-            t = 2 * q               # larger primes, slower models: the sweep runs at twice the quick volume per prime
+            t = q                   # larger primes, slower models: the sweep runs at the quick volume per prime
             n = ctx.n(q, t) // ctx.nshards
         else:
             n = ctx.n(q, t) // ctx.nshards // nparams
